@@ -1,6 +1,6 @@
 (* Extraction for the C16 correspondence driver: ExtrOcamlBasic only; N/positive/nat stay
    extracted inductives. *)
 From Coq Require Import Extraction ExtrOcamlBasic NArith List.
-From RsddV Require Import Model.Lru.
+From RsddV Require Import Model.Lru Base.Bdd Model.IteStd Model.BddOps Model.BddProg.
 Extraction Language OCaml.
-Extraction "../ocaml/C16/model.ml" lru_new step get insert occupied_count.
+Extraction "../ocaml/C16/model.ml" lru_new step get insert occupied_count run_prog bstate_init bdd_eqb.
